@@ -22,6 +22,32 @@ CLAIMED = {
         design='§6 C03'),
 }
 
+CLAIMED['C04'] = dict(
+    text='Position.send_with_context/read_with_context, ChunkSectionPos.send/read and Record.send/read_with_context are '
+         'executed symbolically from their real source for EVERY in-range coordinate triple (BV(128), no-overflow side '
+         'obligations) and EVERY known protocol version at once (one symbolic chronological index, S4 contract of '
+         'protocol_later_eq): emitted bytes equal the protocol packing written independently in spec/ (x|z|y from 477, '
+         'x|y|z up to 404, one of the two with a single monotone switch in between), decode is the inverse, every 64-bit '
+         'word re-encodes to itself, records match both sides of 741. Counter-models are replayed on the real functions.',
+    note='Trusted: struct.pack/unpack ">Q"/">B" contract; S4 contract of ConnectionContext.protocol_later_eq (proved in '
+         'C08); UnsignedLong/UnsignedByte one-line wrappers and VarInt/VarLong bodies are inlined (executed, unrolled with '
+         'unwinding assertions); PyVC Python-subset semantics (per-path CPython conformance runs).',
+    design='§6 C04')
+CLAIMED['C02'] = dict(
+    text='For every type of types/basic.py the real read/send bodies are turned into verification conditions: integers and '
+         'Boolean for all values of their domain in BV(128) against big-endian two\'s-complement spec bytes (plus inverse, '
+         'exact consumption, and a raise on every truncated input of symbolic length), Float/Double as glue around the '
+         'assumed IEEE pack/unpack functions (byte order, width), FixedPoint/Angle over reals against trunc(v*2^n) / '
+         'round(256*(v mod 360)/360) mod 256 using the S3 contracts of their carriers (not their bodies), byte arrays/String/'
+         'UUID with symbolic-length payload blobs (prefix = spec length encoding, payload unchanged, inverse, truncation '
+         'inside the payload raises), PrefixedArray for every fixed length 0..3 incl. nesting and context dispatch, '
+         'Type dispatch on class and instance.',
+    note='Trusted: struct pack/unpack contract incl. IEEE-754 for f/d (opaque functions), utf-8 and uuid.UUID inverse-pair '
+         'contracts, floats as reals in FixedPoint/Angle (bounded IEEE stand-in alongside: 1/64-degree angle grid, all 256 '
+         'angle bytes, independent IEEE encoder), PrefixedArray only for lengths 0..3 at proof level (longer arrays: bounded), '
+         'pynbt (NBT) not covered.',
+    design='§6 C02')
+
 PLANNED = {
     'C01': 'check not built yet (DESIGN §6 C01): frame contracts on Packet.write/_write_buffer/read_packet',
     'C02': 'check not built yet (DESIGN §6 C02)',
